@@ -156,6 +156,9 @@ def c04Noop (prev next : Obs) (op : Op) : List String :=
   | .modify i _ _ => if st i ≠ some .active && (st i).isSome then same else []
   | .ev (.modify i _ _) => if st i ≠ some .active && (st i).isSome then same else []
   | .time t => chk "time_only_time" (next == { prev with t := t })
+  -- creating (without placing) yields an order that is New and open-ended, whatever the state of the book
+  | .create .. => chk "created_order_is_new" ((next.orders.drop prev.orders.length).all fun o =>
+      o.status = .new && o.endt = MAXT)
   | _ => []
 
 /-! ### C06 — modification -/
@@ -220,6 +223,11 @@ def c12Grid (tick nLevels : Nat) (prev next : Obs) (op : Op) (res : Res) : List 
      (if r matches .err _ _ then chk "rejected_creation_no_trace" (next == prev) else [])
    | .create _ _ _ none, r => chk "market_always_created" (r matches .ok _)
    | .cap _ _ _ none, r => chk "market_always_created" (r matches .ok _)
+   | _, _ => []) ++
+  -- an accepted creation gets the next dense id (a rejected one consumed none)
+  (match op, res with
+   | .create .., .ok id => chk "created_id_is_next" (id == prev.orders.length && next.orders.length == prev.orders.length + 1)
+   | .cap .., .ok id => chk "created_id_is_next" (id == prev.orders.length && next.orders.length == prev.orders.length + 1)
    | _, _ => []) ++
   chk "levels_account_bid"
     (((next.bidLevels.map (·.1)).sum) == Views.volWithin next.orders tick .bid nLevels) ++
